@@ -473,3 +473,183 @@ func AssignSrc(f *goast.File, fd *ast.FuncDecl, name string) (string, error) {
 	}
 	return out, nil
 }
+
+// ---------- robustness against harmless rewrites ----------
+
+func isLogOrMetric(e ast.Expr) bool {
+	call, ok := e.(*ast.CallExpr)
+	if !ok {
+		return false
+	}
+	// root identifier of the selector chain and the names on it
+	var names []string
+	var root string
+	var walk func(x ast.Expr)
+	walk = func(x ast.Expr) {
+		switch v := x.(type) {
+		case *ast.CallExpr:
+			walk(v.Fun)
+		case *ast.SelectorExpr:
+			names = append(names, v.Sel.Name)
+			walk(v.X)
+		case *ast.Ident:
+			root = v.Name
+		}
+	}
+	walk(call)
+	if root == "log" {
+		return true
+	}
+	last := ""
+	if len(names) > 0 {
+		last = names[0]
+	}
+	hasLabels := false
+	for _, n := range names {
+		if n == "WithLabelValues" {
+			hasLabels = true
+		}
+	}
+	switch last {
+	case "Inc", "Add", "Observe", "Set", "Dec":
+		return hasLabels || strings.HasSuffix(root, "Counter") || strings.HasSuffix(root, "Gauge")
+	}
+	return hasLabels && last == "WithLabelValues"
+}
+
+func scrubBlock(list []ast.Stmt) []ast.Stmt {
+	var out []ast.Stmt
+	for _, s := range list {
+		if es, ok := s.(*ast.ExprStmt); ok && isLogOrMetric(es.X) {
+			continue
+		}
+		out = append(out, s)
+	}
+	return out
+}
+
+// Prepare makes the extraction insensitive to two kinds of harmless edits, in every function of the file:
+// log / metrics statements are dropped, and variables declared inside a function body (:=, var, range; not
+// parameters, receivers or results) are renamed v1, v2, ... in order of declaration.
+func Prepare(f *goast.File) *goast.File {
+	for _, d := range f.AST.Decls {
+		fd, ok := d.(*ast.FuncDecl)
+		if !ok || fd.Body == nil {
+			continue
+		}
+		ast.Inspect(fd.Body, func(n ast.Node) bool {
+			switch b := n.(type) {
+			case *ast.BlockStmt:
+				b.List = scrubBlock(b.List)
+			case *ast.CaseClause:
+				b.Body = scrubBlock(b.Body)
+			case *ast.CommClause:
+				b.Body = scrubBlock(b.Body)
+			}
+			return true
+		})
+		// objects declared inside the body
+		names := map[*ast.Object]string{}
+		k := 0
+		ast.Inspect(fd.Body, func(n ast.Node) bool {
+			id, ok := n.(*ast.Ident)
+			if !ok || id.Obj == nil || id.Obj.Kind != ast.Var || id.Name == "_" {
+				return true
+			}
+			if _, seen := names[id.Obj]; seen {
+				return true
+			}
+			pos := id.Obj.Pos()
+			if pos >= fd.Body.Pos() && pos <= fd.Body.End() {
+				k++
+				names[id.Obj] = fmt.Sprintf("v%d", k)
+			}
+			return true
+		})
+		ast.Inspect(fd.Body, func(n ast.Node) bool {
+			if id, ok := n.(*ast.Ident); ok && id.Obj != nil {
+				if nn, ok := names[id.Obj]; ok {
+					id.Name = nn
+				}
+			}
+			return true
+		})
+	}
+	return f
+}
+
+// FirstCompositeOf returns the element source texts of the first composite literal in fd whose type text is typ
+// (e.g. "[]filter.Filter").
+func FirstCompositeOf(f *goast.File, fd *ast.FuncDecl, typ string) ([]string, error) {
+	var out []string
+	found := false
+	ast.Inspect(fd.Body, func(n ast.Node) bool {
+		if found {
+			return false
+		}
+		cl, ok := n.(*ast.CompositeLit)
+		if !ok || cl.Type == nil || f.Src(cl.Type) != typ {
+			return true
+		}
+		found = true
+		for _, e := range cl.Elts {
+			out = append(out, f.Src(e))
+		}
+		return false
+	})
+	if !found {
+		return nil, fmt.Errorf("%s: %s: no composite literal of type %s", f.Path, fd.Name.Name, typ)
+	}
+	return out, nil
+}
+
+// ChainFrom returns the call chain (innermost first) of the first assigned expression in fd whose innermost call is `start`.
+func ChainFrom(f *goast.File, fd *ast.FuncDecl, start string) ([]string, error) {
+	var res []string
+	ast.Inspect(fd.Body, func(n ast.Node) bool {
+		if res != nil {
+			return false
+		}
+		as, ok := n.(*ast.AssignStmt)
+		if !ok || len(as.Rhs) != 1 {
+			return true
+		}
+		if _, ok := as.Rhs[0].(*ast.CallExpr); !ok {
+			return true
+		}
+		ch := ChainOf(f, as.Rhs[0])
+		if len(ch) > 1 && strings.HasPrefix(ch[0], start+"(") {
+			res = ch
+		}
+		return true
+	})
+	if res == nil {
+		return nil, fmt.Errorf("%s: %s: no call chain starting with %s", f.Path, fd.Name.Name, start)
+	}
+	return res, nil
+}
+
+// FirstCompositeSrc returns the source text of the first composite literal of type typ (possibly behind &) in fd.
+func FirstCompositeSrc(f *goast.File, fd *ast.FuncDecl, typ string) (string, error) {
+	var out string
+	ast.Inspect(fd.Body, func(n ast.Node) bool {
+		if out != "" {
+			return false
+		}
+		if u, ok := n.(*ast.UnaryExpr); ok {
+			if cl, ok := u.X.(*ast.CompositeLit); ok && cl.Type != nil && f.Src(cl.Type) == typ {
+				out = f.Src(u)
+				return false
+			}
+		}
+		if cl, ok := n.(*ast.CompositeLit); ok && cl.Type != nil && f.Src(cl.Type) == typ {
+			out = f.Src(cl)
+			return false
+		}
+		return true
+	})
+	if out == "" {
+		return "", fmt.Errorf("%s: %s: no composite literal of type %s", f.Path, fd.Name.Name, typ)
+	}
+	return out, nil
+}
